@@ -39,6 +39,11 @@ pub enum FileKind {
     Eio(u32, usize),
     /// valid content of this version, but the file ends after k octets
     Torn(u32, usize),
+    /// valid zone of this version whose validation only *warns* (MX to an in-zone host
+    /// without address): must load
+    WarningOnly(u32),
+    /// a fatal validation error (no apex NS) together with a warning: must not load
+    ErrorAndWarning,
 }
 #[derive(Clone, Debug, Serialize, Deserialize)]
 pub struct Edit {
@@ -96,6 +101,8 @@ fn zone_text(zone: usize, kind: &FileKind) -> Option<Vec<u8>> {
     Some(
         match kind {
             FileKind::Valid(v) | FileKind::Eio(v, _) => valid(*v),
+            FileKind::WarningOnly(v) => format!("{}mx {c} MX 10 nomail\n", valid(*v)),
+            FileKind::ErrorAndWarning => format!("{head}{}{}mx {c} MX 10 nomail\n", soa(9), marker(9)),
             FileKind::Torn(v, k) => {
                 // cut somewhere up to the end of the SOA line: by construction never a
                 // complete valid zone (no NS at the apex at the very least)
@@ -116,7 +123,7 @@ fn zone_text(zone: usize, kind: &FileKind) -> Option<Vec<u8>> {
 /// Whether the file content loads and validates, by construction.
 fn loads(kind: &FileKind) -> Option<u32> {
     match kind {
-        FileKind::Valid(v) => Some(*v),
+        FileKind::Valid(v) | FileKind::WarningOnly(v) => Some(*v),
         _ => None,
     }
 }
@@ -187,7 +194,9 @@ impl Prop for C31 {
             for _ in 0..nedits {
                 let (zone, path) = if !zones.is_empty() && chance(r, 85) { *pick(r, &zones) } else { (r.below(UNIVERSE.len() as u64) as usize, r.below(PATHS as u64) as usize) };
                 version += 1;
-                let kind = match r.below(16) {
+                let kind = match r.below(18) {
+                    16 => FileKind::WarningOnly(version),
+                    17 => FileKind::ErrorAndWarning,
                     0..=7 => FileKind::Valid(version),
                     8 => FileKind::Syntax,
                     9 => FileKind::NoSoa,
